@@ -52,6 +52,7 @@ type Step struct {
 	Cc    string `json:"cc"`
 	Qc    string `json:"qc"`
 	Tc    string `json:"tc"`
+	ReqKs string `json:"reqks"` // keyspace carried by the PREPARE itself (protocol DSEv2 / v5), "" = none
 }
 
 type Beh struct {
@@ -318,7 +319,9 @@ func newWorker(id int, keyspaces []string, res *result, mis *groups) (*worker, e
 // start brings up a fresh fake cluster and proxy for this worker.
 func (w *worker) start() error {
 	t := tracer.New()
+	// clients may speak every version up to DSEv2 (a PREPARE can name its keyspace from DSEv2 / v5 on); the backend too
 	e, err := env.Start(env.Options{Nodes: 1, NumConns: 1, Keyspaces: w.keyspaces, Tracer: t,
+		MaxVersion: primitive.ProtocolVersionDse2, ClusterMaxVersion: primitive.ProtocolVersionDse2,
 		HeartBeat: 30 * time.Minute, Idle: 60 * time.Minute})
 	if err != nil {
 		return err
@@ -401,7 +404,7 @@ type opResult struct {
 
 func (w *worker) roundtrip(c *cqlclient.Client, stream int16, msg message.Message) opResult {
 	tok := w.token()
-	frm := frame.NewFrame(primitive.ProtocolVersion4, stream, msg)
+	frm := frame.NewFrame(c.Version, stream, msg)
 	frm.SetCustomPayload(map[string][]byte{"verif-token": []byte(tok)})
 	n0 := w.t.Len()
 	r, err := c.Roundtrip(frm, tok, "c09", 8*time.Second)
@@ -410,6 +413,10 @@ func (w *worker) roundtrip(c *cqlclient.Client, stream int16, msg message.Messag
 		n0 = len(evs)
 	}
 	fwd, detail := w.scan(evs[n0:], tok)
+	if (err != nil || r == nil) && !fwd && c.IsClosed() {
+		// nothing reached the backend and the proxy hung up instead of answering
+		return opResult{got: "dropped", detail: fmt.Sprint(err, "; the proxy closed the client's connection; ", detail), tok: tok}
+	}
 	if err != nil || r == nil {
 		return opResult{got: "noreply", detail: fmt.Sprint(err, " ", detail), tok: tok}
 	}
@@ -423,7 +430,17 @@ func (w *worker) runBehaviour(b *Beh, sample bool) {
 	// ingest stray events and start from an empty log
 	w.scan(w.t.Events(), "")
 	w.t.Reset()
-	c, err := w.e.StartedClient(primitive.ProtocolVersion4, "")
+	version := primitive.ProtocolVersion4
+	for i := range b.Steps {
+		if b.Steps[i].ReqKs != "" {
+			version = primitive.ProtocolVersionDse2
+		}
+	}
+	if b.Via == "prepare" && w.seq%4 == 0 {
+		// every fourth plain PREPARE / EXECUTE behaviour is spoken in DSEv2 too (PREPARED results differ between versions)
+		version = primitive.ProtocolVersionDse2
+	}
+	c, err := w.e.StartedClient(version, "")
 	if err != nil {
 		w.res.mu.Lock()
 		w.res.NoReply++
@@ -433,7 +450,7 @@ func (w *worker) runBehaviour(b *Beh, sample bool) {
 	}
 	c.Quiet = true
 	defer c.Close()
-	var prepID []byte
+	var prepID, prepMeta []byte
 	havePrep := false
 	var prepStep *Step
 	var trace []map[string]string
@@ -444,7 +461,7 @@ func (w *worker) runBehaviour(b *Beh, sample bool) {
 		case "QUERY":
 			msg = &message.Query{Query: st.Text, Options: &message.QueryOptions{Consistency: primitive.ConsistencyLevelOne}}
 		case "PREPARE":
-			msg = &message.Prepare{Query: st.Text}
+			msg = &message.Prepare{Query: st.Text, Keyspace: st.ReqKs}
 			prepStep = st
 		case "EXECUTE":
 			if !havePrep {
@@ -453,7 +470,7 @@ func (w *worker) runBehaviour(b *Beh, sample bool) {
 				w.res.mu.Unlock()
 				continue
 			}
-			msg = &message.Execute{QueryId: prepID, Options: &message.QueryOptions{Consistency: primitive.ConsistencyLevelOne}}
+			msg = &message.Execute{QueryId: prepID, ResultMetadataId: prepMeta, Options: &message.QueryOptions{Consistency: primitive.ConsistencyLevelOne}}
 		default:
 			continue
 		}
@@ -470,7 +487,7 @@ func (w *worker) runBehaviour(b *Beh, sample bool) {
 			rk = r.reply.Kind
 			if st.Op == "PREPARE" && r.reply.Frame != nil {
 				if p, ok := r.reply.Frame.Body.Message.(*message.PreparedResult); ok {
-					prepID, havePrep = p.PreparedQueryId, true
+					prepID, prepMeta, havePrep = p.PreparedQueryId, p.ResultMetadataId, true
 				}
 			}
 		}
@@ -502,6 +519,14 @@ func (w *worker) runBehaviour(b *Beh, sample bool) {
 		w.res.mu.Unlock()
 		if r.got == "local" {
 			w.local[r.tok] = ex
+		}
+		if r.got == "dropped" {
+			// the statement is the proxy's to answer (or to forward) and it did neither
+			w.res.mu.Lock()
+			w.res.MismatchTotal++
+			w.res.mu.Unlock()
+			w.mis.add("e2e", st.Op, st.Kind, cls.Cc, cls.Qc, cls.Tc, st.Disp, r.got, st.Shape, fmt.Sprintf("protocol=%v", c.Version), ex)
+			break
 		}
 		if r.got != "noreply" && r.got != st.Disp {
 			w.res.mu.Lock()
